@@ -63,8 +63,13 @@ class Rec:
         self.got: list[tuple[Any, Any]] = []
         self.errors: list[Any] = []
 
+        self.on_packet: Any = None  # called once from inside the first process_packet (an in-process peer that answers at once)
+
     def process_packet(self, t: Any, d: Any) -> None:
         self.got.append((t, d))
+        if self.on_packet is not None:
+            hook, self.on_packet = self.on_packet, None
+            hook()
 
     def report_fatal_error(self, e: Any) -> None:
         self.errors.append(e)
@@ -239,6 +244,28 @@ def check_stream(args: tuple[bytes, str, int, int]) -> dict[str, Any]:
             v = feed_segments(stream, cuts, rot)
             if v:
                 return fail(v, cuts=list(cuts), kinds=list(rot))
+    # 0c. re-entrancy: the peer lives in the same process and its next bytes arrive from *inside* the dispatch of the first frame
+    #     (the connection answers a request, the loopback transport hands the reply straight back to data_received)
+    if len(ends) >= 1:
+        first_end = ends[0][0]
+        for c in [x for x in cut_set(stream) if x >= first_end] + [n]:
+            for c2 in sorted({c, min(n, c + 1), min(n, c + 3), n}):
+                h, rec = new_helper()
+                rest = stream[c:c2]
+                rec.on_packet = (lambda hh=h, rr=rest: hh.data_received(rr)) if rest else None
+                out["evals"] += 1
+                try:
+                    h.data_received(stream[:c])
+                    if c2 < n:
+                        h.data_received(stream[c2:])
+                except Exception as e:  # noqa: BLE001
+                    return fail(f"exception {type(e).__name__}: {e} with re-entrant delivery of [{c}:{c2}] from inside the first frame's dispatch",
+                                cuts=[c, c2], kinds=["reentrant"])
+                got = norm_got(rec.got)
+                exp = expected_between(ends, -1, n)
+                if got != exp or rec.errors:
+                    return fail(f"re-entrant delivery of [{c}:{c2}] from inside the first frame's dispatch: delivered {_short(got)} expected {_short(exp)}"
+                                + (f", fatal error {rec.errors[0]!r}" if rec.errors else ""), cuts=[c, c2], kinds=["reentrant"])
     cs = cut_set(stream)
     # 2. all segmentations with <= max_cuts cuts from the cut set (direct, no induction)
     for k in range(1, max_cuts + 1):
